@@ -12,6 +12,8 @@ Streams (model `Wpull.Request` vs the real code in the repo under test):
            the URL as seen at the URL table (requests per visit, status and try_count checked in) vs the model
            and across option combinations of the application wiring (--hostnames, --exclude-hostnames, --domains, -I/-X,
            --accept/--reject[-regex], --no-parent, --span-hosts, --level, --page-requisites-level, …: attempts == tries whatever is set)
+  multi    oracle only: several start URLs of one host, 2-3 workers (PipelineSeries.concurrency), robots.txt honoured and failing
+           (5xx, reset, slow then failing): the crawl ends, attempts == tries per URL
   restart  the real application on a persistent --database against always-failing pages; runs die in a forked child while an
            attempt is in flight and are restarted on the same database: completed failed attempts over all runs <= tries
 Direct oracle on the real runs: redirect follow-ups per visit <= max_redirects; requests per visit
@@ -247,6 +249,47 @@ def check_crawl(ctx, case):
     return res
 
 
+def check_multi(ctx, case):
+    """Several start URLs of one host, 2-3 workers, robots.txt honoured and failing: oracle only (per URL: the visits at the URL
+    table; with interleaved workers requests cannot be attributed to visits, so there is no trace comparison with the model)."""
+    tries, urls, workers = case['tries'], case['urls'], case['workers']
+    res = rc.run_crawl(urls[0], case['replies'], tries, 1, more_urls=urls[1:], concurrency=workers,
+                       robots={'replies': case['robots'], 'disallow': False}, timeout=case.get('timeout', 10))
+    per = {}
+    start = {}
+    for ev in res['events']:
+        if ev[0] == 'out':
+            start[ev[1]] = ev
+        elif ev[0] == 'in' and ev[1] in start:
+            per.setdefault(ev[1], []).append((start.pop(ev[1])[3], ev[2], ev[3]))
+    trace = '; '.join('%s: %s' % (u.rsplit('/', 1)[-1], ','.join('%d>%s:%d' % v for v in vs)) for u, vs in sorted(per.items()))
+    ctx.case(('multi', repr(case)), tags=['multi:' + case['name'], 'multi:workers=%d' % workers, 'multi:urls=%d' % len(urls)])
+    if res['hung'] or res['capped']:
+        ctx.fail('crawl-never-ends', 'Application.run', case,
+                 'the crawl did not end (%s) with %d workers, %d URLs of one host, robots.txt %s: %d check-outs, %d page and %d robots.txt '
+                 'requests; items still checked out: %s; visits %s'
+                 % ('check-out cap' if res['capped'] else 'blocked', workers, len(urls), case['name'], res['checkouts'], len(res['hops']),
+                    len(res['rhops']), sorted(u.rsplit('/', 1)[-1] for u in start), trace[:400]))
+        return
+    for u in urls:
+        vs = per.get(wpull_norm(u), per.get(u, []))
+        attempts = [v for v in vs if v[0] < tries]
+        if any(b != a + 1 for a, _, b in vs):
+            ctx.fail('try-count-increment', 'ItemSession', case, 'visits of %s: %r' % (u, vs))
+        if case.get('always_fail') and len(attempts) != tries:
+            ctx.fail('attempts-not-tries', 'WebProcessorSession', case, '%s was attempted %d times with tries=%d (%s)' % (u, len(attempts), tries, trace[:300]))
+        if len(vs) > tries + 1:
+            ctx.fail('too-many-visits', 'URLItemSource', case, '%d check-outs of %s with tries=%d' % (len(vs), u, tries))
+        if vs and vs[-1][1] in ('todo', 'error', 'in_progress'):
+            ctx.fail('left-unfinished', 'URLItemSource', case, '%s ended in status %s' % (u, vs[-1][1]))
+    ctx.sample({'stream': 'multi', 'name': case['name'], 'workers': workers, 'tries': tries, 'visits': trace[:200]})
+
+
+def wpull_norm(u):
+    from wpull.url import URLInfo
+    return URLInfo.parse(u).url
+
+
 # options read by URLFiltersSetupTask._build_url_filters and the other set-up tasks, with values that do not exclude the test URL
 # http://a.example/x: none of them may switch the tries limit or the redirect limit off
 FILTER_OPTIONS = [['--hostnames', 'a.example'], ['--exclude-hostnames', 'other.test'], ['--domains', 'example'], ['--exclude-domains', 'other.test'],
@@ -336,6 +379,8 @@ def replay(ctx, case, kind=None, where=None):
         check_crawl(ctx, case)
     elif s == 'restart':
         check_restart(ctx, case)
+    elif s == 'multi':
+        check_multi(ctx, case)
     else:
         raise Infra('unknown replay stream %r' % s)
 
@@ -411,6 +456,21 @@ def run(ctx):
         for host_fail, retry in (('refused', '--retry-connrefused'), ('dns', '--retry-dns-error')):
             check_crawl(ctx, {'stream': 'crawl', 'name': 'host-' + host_fail, 'url': 'http://a.example/x', 'replies': [], 'tries': tries,
                               'max_redirects': 1, 'login': None, 'host_fail': host_fail, 'retry': retry})
+    # several items of one host in flight at once (2-3 workers), robots.txt not yet in the pool and failing
+    slow = lambda r, n: dict(r, delay=n)
+    multi_robots = {
+        'robots-500-forever': [rep(500) for _ in range(60)],
+        'robots-reset-forever': [{'status': 0, 'mode': 'close'} for _ in range(60)],
+        'robots-slow-500': [slow(rep(503), 3 + (k % 4)) for k in range(60)],
+        'robots-slow-reset': [dict(rep(200), delay=4, then='close') for _ in range(60)],
+        'robots-slow-500-then-200': [slow(rep(500), 5), slow(rep(502), 2), rep(500), slow(rep(200), 3)] + [rep(200)] * 20,
+        'robots-alt-reset-500': [({'status': 0, 'mode': 'close'} if k % 2 else slow(rep(500), 2)) for k in range(60)],
+    }
+    for rname, rscript in multi_robots.items():
+        for workers, nurls, tries in (((2, 2, 2), (3, 4, 2), (2, 3, 3), (3, 3, 1)) if thorough else ((2, 2, 2), (3, 4, 2))):
+            check_multi(ctx, {'stream': 'multi', 'name': rname, 'urls': ['http://a.example/p%d' % i for i in range(nurls)], 'workers': workers,
+                              'tries': tries, 'robots': rscript, 'replies': [rep(500) for _ in range(80)],
+                              'always_fail': 'then-200' not in rname})
     # option combinations of the real application wiring: whatever else is configured, a URL that keeps failing is attempted
     # --tries times and a redirect loop is cut at --max-redirect
     orng = ctx.subrng('options')
